@@ -91,8 +91,8 @@ func (h *c01Hist) observe(nd *wNode) {
 		node NodeID
 		hash hotstuff.Hash
 	}
-	var honestVotes []int // indices into h.events of EVote by nd in this stimulus
-	var lastVoteQC *hotstuff.Hash
+	var honestVotes []int           // indices into h.events of EVote by nd in this stimulus
+	var votedBlocks []hotstuff.Hash // blocks an honest node voted for in this stimulus, in order
 	for ; h.seenSign < len(w.signLog); h.seenSign++ {
 		s := w.signLog[h.seenSign]
 		if bh, ok := h.bytesIdx[string(s.msg)]; ok {
@@ -107,8 +107,7 @@ func (h *c01Hist) observe(nd *wNode) {
 				} else {
 					h.emit(fmt.Sprintf("EVote %d %d @LOCK@", s.node.ReplicaID, h.id(bh)), fmt.Sprintf("replica %v signs vote for #%d", s.node, h.id(bh)))
 				}
-				q := w.blocks[bh].QuorumCert().BlockHash()
-				lastVoteQC = &q
+				votedBlocks = append(votedBlocks, bh)
 			}
 		} else if len(s.msg) == 8 {
 			v := binary.LittleEndian.Uint64(s.msg)
@@ -141,17 +140,43 @@ func (h *c01Hist) observe(nd *wNode) {
 	}
 	if nd != nil && !nd.byz && !h.isByzID(nd.id.ReplicaID) {
 		if n0 := h.seenCom[nd.id]; n0 < len(nd.commits) {
-			var obs []string
-			for _, b := range nd.commits[n0:] {
-				obs = append(obs, fmt.Sprint(h.id(b.Hash())))
-			}
+			remaining := nd.commits[n0:]
 			h.seenCom[nd.id] = len(nd.commits)
-			h.commits++
-			h1 := uint64(999999)
-			if lastVoteQC != nil {
-				h1 = h.id(*lastVoteQC)
+			emitChunk := func(h1 uint64, chunk []*hotstuff.Block) {
+				var obs []string
+				for _, b := range chunk {
+					obs = append(obs, fmt.Sprint(h.id(b.Hash())))
+				}
+				h.commits++
+				h.emit(fmt.Sprintf("%sCommit %d %d [%s]", h.pfx(), nd.id.ReplicaID, h1, strings.Join(obs, "; ")), fmt.Sprintf("replica %v commits [%s] while processing a block whose QC certifies #%d", nd.id, strings.Join(obs, " "), h1))
 			}
-			h.emit(fmt.Sprintf("%sCommit %d %d [%s]", h.pfx(), nd.id.ReplicaID, h1, strings.Join(obs, "; ")), fmt.Sprintf("replica %v commits [%s] while processing a block whose QC certifies #%d", nd.id, strings.Join(obs, " "), h1))
+			// CommitEvents are handled after the handler that produced them returned, possibly
+			// after further proposals were processed in the same stimulus: attribute each run of
+			// commits to the voted block whose commit rule targets its last block.
+			for _, vb := range votedBlocks {
+				b := w.blocks[vb]
+				c1, ok1 := w.blocks[b.QuorumCert().BlockHash()]
+				if !ok1 {
+					continue
+				}
+				target, ok2 := w.blocks[c1.QuorumCert().BlockHash()]
+				if ok2 && !h.fast {
+					target, ok2 = w.blocks[target.QuorumCert().BlockHash()]
+				}
+				if !ok2 {
+					continue
+				}
+				for i, cb := range remaining {
+					if cb.Hash() == target.Hash() {
+						emitChunk(h.id(c1.Hash()), remaining[:i+1])
+						remaining = remaining[i+1:]
+						break
+					}
+				}
+			}
+			if len(remaining) > 0 {
+				emitChunk(999999, remaining) // commits that no vote of this stimulus explains
+			}
 		}
 	}
 }
